@@ -538,6 +538,8 @@ class Engine(object):
 
     def truthy(self, v):
         """z3 Bool (or Python bool) for Python truthiness of v"""
+        if hasattr(v, 'sym_truthy'):
+            return v.sym_truthy(self)
         if isinstance(v, SBool):
             return v.t
         if isinstance(v, STruth):
